@@ -260,24 +260,36 @@ def check_dispatch(repo: Repo, rep: Report) -> None:
     # find_answer / solve hand their own argument to _get_backend
     for meth in ("Solver.find_answer", "Solver.solve"):
         fn = smod.func(meth)
-        for arg, conf, want in (("z3", "sugar", "Z3Backend"), (None, "csugar", "CSugarBackend"), (None, "z3", "Z3Backend")):
+        # every backend interaction of one call goes to the class the call's own argument (else the default) names: with a backend
+        # that deduces natively, and with one that does not (NotImplementedError, then a satisfiable and an unsatisfiable round)
+        for arg, conf, want, native in (("z3", "sugar", "Z3Backend", True), (None, "csugar", "CSugarBackend", True), (None, "z3", "Z3Backend", True),
+                                        ("z3", "sugar", "Z3Backend", False), ("sugar", "z3", "SugarBackend", False), (None, "sugar", "SugarBackend", False)):
             config.attrs["default_backend"] = conf
             used: List[str] = []
 
-            def mk(clsname: str):
+            def mk(clsname: str, native: bool = native):
                 def ctor(variables: Any) -> Obj:
                     used.append(clsname)
-                    return Obj(["Backend"], add_constraint=lambda c: None, solve=lambda: False,
-                               solve_irrefutably=lambda k: False, name=clsname)
+                    rounds = [True, False]
+
+                    def irr(keys: Any) -> Any:
+                        if native:
+                            return False
+                        raise Raised("NotImplementedError()")
+
+                    return Obj(["Backend"], add_constraint=lambda c: None, solve=(lambda: False) if native else (lambda: rounds.pop(0) if rounds else False),
+                               solve_irrefutably=irr, name=clsname)
                 return ctor
 
             genv["backend"] = backend_package(mk)
+            genv.setdefault("Op", Tag("Op"))
+            genv.setdefault("BoolExpr", lambda op, operands: Obj(["BoolExpr", "Expr"], op=op, operands=list(operands), name="clause"))
             selfo = solver_self(cw, variables=[], constraints=[], is_answer_key=[], name="self")
             try:
                 ev.steps = 0
                 fde.FunctionValue(fn, ev, genv, self_obj=selfo)(arg) if arg is not None else fde.FunctionValue(fn, ev, genv, self_obj=selfo)()
                 if used == [want]:
-                    rep.ok("CFG-1", f"{meth}(backend={arg!r}) with default {conf!r} instantiates {want}")
+                    rep.ok("CFG-1", f"{meth}(backend={arg!r}) with default {conf!r} instantiates {want}" + ("" if native else " (no native deduction)"))
                 else:
                     rep.finding("CFG-1", SOLVER, meth, f"{meth} backend choice",
                                 f"{meth}(backend={arg!r}) with config.default_backend={conf!r} instantiates {used}, expected [{want}]", fn.lineno)
